@@ -88,7 +88,11 @@ CONSTANTS
   Probes,      \* BOOLEAN: the caller may also ask for its position / try an arbitrary seek
   Exts,        \* subset of BOOLEAN: descriptors with an external URL (descriptor.URLs)
   KeepSlots,   \* BOOLEAN: TRUE = throttle handling before the repair (findings/C01-2.md)
-  TarUnverified \* BOOLEAN: TRUE = tar paths as found, bypassing BReader.Read (findings/C01-1.md)
+  TarUnverified, \* BOOLEAN: TRUE = tar paths as found, bypassing BReader.Read (findings/C01-1.md)
+  MTs,         \* subset of BOOLEAN: the descriptor carries a media type (FALSE + size 0 = digest only)
+  DigestHdrs   \* Docker-Content-Digest of a 2xx reply: subset of {"absent", "echo" (what was asked
+               \* for), "served" (digest of what the reply's source holds), "servedother" (the same
+               \* with the other algorithm), "garbage"}
 
 VARIABLES
   scn,       \* the scenario: descriptor, stored content, scheme, access path (constant)
@@ -105,6 +109,7 @@ VARIABLES
   rbytes,    \* blob.BReader.readBytes
   bsize,     \* blob.BReader.desc.Size (set at EOF when it was 0)
   hashed,    \* input of blob.BReader.digester so far
+  bdig,      \* blob.BReader.desc.Digest, as the content it names
   got,       \* what the caller has been handed since the last rewind (observation)
   cst,       \* "reading" | "clean" | "error" (observation: how the stream ended)
   ret,       \* last return value seen by the caller
@@ -112,7 +117,7 @@ VARIABLES
   extused    \* the external URL of the descriptor is being used (scheme/reg/blob.go:66)
 
 tvars == <<conn, readCur, readMax, rdone, retry, backoff, held, drops, fails>>
-rvars == <<lim, rbytes, bsize, hashed>>
+rvars == <<lim, rbytes, bsize, hashed, bdig>>
 vars == <<scn, pc, why, pend, src, tvars, rvars, got, cst, ret, seeks, again, extused>>
 
 Sym == {"a", "b"}
@@ -163,18 +168,25 @@ Init ==
      \E w \in (IF sch = "reg" THEN Withs ELSE {FALSE}) : \E ch \in (IF sch = "reg" THEN Chunks ELSE {Big}) :
      \E lt \in (IF sch = "ocidir" /\ sv # c THEN BOOLEAN ELSE {FALSE}) :
      \E ex \in (IF sch = "reg" THEN Exts ELSE {FALSE}) :
+     \E mt \in (IF sch = "reg" THEN MTs ELSE {TRUE}) :
         scn = [intended |-> c, size |-> sz, served |-> sv, data |-> d, scheme |-> sch, via |-> v,
-               with |-> w, chunk |-> ch, late |-> lt, ext |-> ex]
+               with |-> w, chunk |-> ch, late |-> lt, ext |-> ex, mt |-> mt]
   /\ pc = "closed" /\ why = "open" /\ pend = NoPend /\ src = "none"
   /\ conn = [data |-> <<>>, end |-> "eof"]
   /\ readCur = 0 /\ readMax = 0 /\ rdone = FALSE /\ retry = 0 /\ backoff = 0
   /\ held = 0 /\ drops = 0 /\ fails = 0
-  /\ lim = NoLim /\ rbytes = 0 /\ bsize = 0 /\ hashed = <<>>
+  /\ lim = NoLim /\ rbytes = 0 /\ bsize = 0 /\ hashed = <<>> /\ bdig = <<>>
   /\ got = <<>> /\ cst = "reading" /\ ret = [seq |-> 0, op |-> "none", n |-> 0, err |-> "none"]
   /\ seeks = 0 /\ again = 0 /\ extused = FALSE
 
-\* types/blob/reader.go:NewReader / Seek: (re)create LimitRead + TeeReader + digester
+\* types/blob/reader.go:NewReader: LimitRead + TeeReader + digester.  The descriptor is completed
+\* from the response headers field by field (reader.go:48-60): the media type from Content-Type when
+\* it has none (scn.mt; no effect on the stream), the size from Content-Length when it is 0 (the
+\* caller passes sz accordingly), the digest from Docker-Content-Digest only when it has none --
+\* the descriptors of C01 always carry one, so whatever the reply announces (r.dh) the reader
+\* expects the content the caller asked for
 SetupReader(sz) ==
+  /\ bdig' = scn.intended
   /\ bsize' = sz
   /\ lim' = IF sz > 0 THEN sz ELSE NoLim
   /\ rbytes' = 0
@@ -194,12 +206,12 @@ Deliver(n, data, err) ==
       szErr == IF full /\ atEOF /\ bsize # 0
                THEN (IF rb2 < bsize THEN "short" ELSE IF rb2 > bsize THEN "long" ELSE "")
                ELSE ""
-      dgErr == atEOF /\ Check # "none" /\ h2 # scn.intended
+      dgErr == atEOF /\ Check # "none" /\ h2 # bdig                  \* reader.go:122-126
       e2 == IF ~atEOF THEN e1
             ELSE IF dgErr THEN (CASE szErr = "short" -> "digest+short" [] szErr = "long" -> "digest+long"
                                   [] OTHER -> "digest")
             ELSE IF szErr # "" THEN szErr ELSE "eof"
-  IN /\ lim' = lim2 /\ hashed' = h2 /\ rbytes' = rb2 /\ bsize' = bs2
+  IN /\ lim' = lim2 /\ hashed' = h2 /\ rbytes' = rb2 /\ bsize' = bs2 /\ bdig' = bdig
      /\ got' = got \o data
      /\ cst' = IF cst = "error" THEN "error" ELSE ByErr(e2)
      /\ ret' = R("read", n, e2)
@@ -289,7 +301,7 @@ Read(k) ==
 
 ResetReader ==
   /\ lim' = IF bsize > 0 THEN bsize ELSE NoLim
-  /\ hashed' = <<>> /\ rbytes' = 0 /\ UNCHANGED bsize
+  /\ hashed' = <<>> /\ rbytes' = 0 /\ UNCHANGED <<bsize, bdig>>
   /\ got' = <<>> /\ cst' = "reading" /\ ret' = R("seek", 0, "none")
 
 Seek0 ==
@@ -384,9 +396,9 @@ Srcs == IF scn.served = scn.intended THEN {"served"} ELSE {"served", "intended"}
 AllReplies ==
   IF RangeReq
   THEN [src : Srcs, start : {readCur, 0, readCur + 1}, cl : {"right"},
-        cr : {"honest", "lying", "absent"}, cut : {NoCut} \cup 0..(MaxLen + 1)]
+        cr : {"honest", "lying", "absent"}, cut : {NoCut} \cup 0..(MaxLen + 1), dh : DigestHdrs]
   ELSE [src : Srcs, start : {0}, cl : {"right", "absent", "plus", "minus"},
-        cr : {"honest"}, cut : {NoCut} \cup 0..(MaxLen + 1)]
+        cr : {"honest"}, cut : {NoCut} \cup 0..(MaxLen + 1), dh : DigestHdrs]
 
 \* what the registry may answer; generator configs narrow it (Replies <- HonestReplies)
 Replies == AllReplies
@@ -436,6 +448,8 @@ HashIsGot == hashed = got
 CountIsGot == pc = "ready" => (rbytes = Len(got) /\ (src = "http" => readCur = Len(got)))
 \* LimitRead never lets more than one probe unit beyond the stated size through
 Bounded == lim # NoLim => Len(got) <= bsize + 1
+\* the reader expects the digest the caller asked for, never one taken from a reply
+WantIsAsked == pc = "ready" => bdig = scn.intended
 \* every return of io.EOF by BReader.Read / RawBody / ReadFile-walk is verified, also after an error
 EofVerified == (ret.op = "read" /\ ret.err = "eof" /\ Check # "none") => got = scn.intended
 \* a request of the stream never waits for throttle slots that only the stream itself holds
